@@ -14,6 +14,56 @@ func init() {
 	scenarios["c05.outage"] = scC05Outage
 	scenarios["c03.repeat"] = scC03Repeat
 	scenarios["c03.cancelkill"] = scC03CancelKill
+	scenarios["c03.queued"] = scC03Queued
+}
+
+// c03.queued: calls are handed to a connection goroutine that is stuck writing a large request to a peer that does not read;
+// then the connection is reset. Whether or not the client reconnects, every one of those calls returns.
+func scC03Queued(w *World, a Args, rng *rand.Rand) error {
+	applyDelays(w, a)
+	c, err := w.NewClient(ClientOpts{Name: "A", NoPing: true, NoReconnect: a.Bool("noreconnect"), BackoffMin: 2 * time.Millisecond, BackoffMax: 8 * time.Millisecond})
+	if err != nil {
+		return err
+	}
+	pc := w.Proxy.Last()
+	pc.Stall(C2S, true)
+	var wg sync.WaitGroup
+	w.Plan(1, &Plan{})
+	wg.Add(1)
+	go func() {
+		defer wg.Done()
+		ctx, cancel := context.WithTimeout(context.Background(), 6*time.Second)
+		defer cancel()
+		c.CallBigReq(ctx, 1, 16<<20)
+	}()
+	time.Sleep(400 * time.Millisecond)
+	for i := 2; i <= 1+a.Int("n", 12); i++ {
+		w.Plan(i, &Plan{})
+		wg.Add(1)
+		go func(i int) {
+			defer wg.Done()
+			c.Call(context.Background(), []string{"unary", "retry", "notify"}[i%3], i)
+		}(i)
+	}
+	time.Sleep(100 * time.Millisecond)
+	w.Rec.Emit("WireFault", "conn", pc.ID, "fault", "kill/rst", "dir", "both", "frame", 0)
+	pc.Kill("rst")
+	done := make(chan struct{})
+	go func() { wg.Wait(); close(done) }()
+	waitCh(done, patience(4*time.Second))
+	if a.Bool("noreconnect") {
+		w.Quiesce(nil, 0, 2*time.Second)
+		return nil
+	}
+	dl := time.Now().Add(patience(3 * time.Second))
+	for tok := 1000; tok < 1400 && time.Now().Before(dl); tok += 10 {
+		if out := c.CallT("unary", tok, patience(2*time.Second)); out == "ok" || out == "pending" {
+			break
+		}
+		time.Sleep(3 * time.Millisecond)
+	}
+	w.Quiesce(c, 9000, 3*time.Second)
+	return nil
 }
 
 // c03.repeat: the connection is lost several times in a row, each time with calls in flight; after every loss the client must
